@@ -24,6 +24,10 @@ from sim import audit, canon, core, corpus, simdisk
 
 PROP = "C18"
 SIM_MTIME = 1700000000
+
+
+def sim_mtime(sha):
+    return SIM_MTIME + int(sha[:6], 16)
 FORMATS = ["classic", "bytes", "extended", "extended-bytes", "xasm", "header"]
 SMALL_MAX_CO = 1200
 SMALL_TOTAL = 6000
@@ -198,6 +202,7 @@ def prepare(master, tier, extra_bases=None):
     W["small"] = [k for k in W["loadable"] if info[k]["max"] <= SMALL_MAX_CO and info[k]["total"] <= SMALL_TOTAL]
     W["faultable"] = [k for k in range(n) if bases[k].magic_int != W["host_magic"]]
     W["max_len"] = 12 if tier == "quick" else 40
+    W.setdefault("chain_from", None)
     # the zygote's own tables must already equal the all-imported snapshot on the shared modules
     z = core.fork_call(_zygote_tables_child, timeout=120)
     if z.status != "ok":
@@ -217,7 +222,7 @@ def slot_name(slot, base_name):
 
 
 class History:
-    __slots__ = ("index", "seed", "ops", "images", "faulty")
+    __slots__ = ("index", "seed", "ops", "images", "faulty", "observations")
 
     def key(self):
         return canon.digest(self.ops)
@@ -228,13 +233,65 @@ FAULT_OPS = ("dis_abort", "load_abort")
 SLOT_OPS = ("load", "load_fo", "dis", "cli", "std", "dis_abort", "load_abort")
 
 
+def plan_chain(i, seed, rng):
+    """Long-chain history: many files loaded / listed one after the other in one process.  A chain of L
+    operations exercises L(L-1)/2 ordered pairs (earlier file, later file) at the cost of L operations:
+    the cheapest way to expose first-writer-wins state (memo tables, intern pools, per-version caches)."""
+    h = History()
+    h.index, h.seed, h.images, h.observations, h.faulty = i, seed, {}, [], False
+    bases = W["bases"]
+    style = rng.weighted([("load", 2), ("dis", 3), ("mixed", 1)])
+    if style == "load":
+        pool = list(W["loadable"])
+        n = min(len(pool), rng.between(150, 320))
+    else:
+        pool = list(W["small"])
+        n = min(len(pool), rng.between(60, 130))
+    files = rng.sample(pool, n)
+    # every chain also contains all PyPy files small enough, at random positions (variants are the rare siblings)
+    if style != "load":
+        pyp = [k for k in W["small"] if W["info"][k].get("is_pypy") and k not in files]
+        for k in rng.sample(pyp, min(len(pyp), 12)):
+            files.insert(rng.below(len(files) + 1), k)
+    ops = []
+    nslots = rng.choice([1, 2, 3])
+    for n_, bi in enumerate(files):
+        base = bases[bi]
+        slot = n_ % nslots
+        sha = base.sha
+        h.images[sha] = base.data
+        name = slot_name(slot, base.name)
+        ops.append(["install", slot, sha, name])
+        if style == "load":
+            kind = "load" if rng.chance(5, 6) else "load_fo"
+        elif style == "dis":
+            kind = "dis"
+        else:
+            kind = rng.weighted([("load", 2), ("dis", 3), ("std", 1)])
+            if kind != "load" and bi not in _small_set():
+                kind = "load"
+        if kind == "load":
+            ops.append(["load", slot, sha, name, True, False])
+        elif kind == "load_fo":
+            ops.append(["load_fo", slot, sha, name])
+        elif kind == "std":
+            ops.append(["std", slot, sha, name])
+        else:
+            ops.append(["dis", slot, sha, name, rng.choice(FORMATS)])
+    h.ops = ops
+    return h
+
+
 def plan_history(i):
     seed = core.derive_seed(W["master"], PROP, i)
     rng = core.SeedStream(seed)
+    if W.get("chain_from") is not None and i >= W["chain_from"]:
+        return plan_chain(i, seed, rng)
     h = History()
     h.index = i
     h.seed = seed
     h.images = {}
+    h.observations = []
     h.faulty = rng.chance(1, 2)
     nslots = rng.between(2, 4)
     length = rng.between(2, W["max_len"]) if rng.chance(3, 4) else rng.between(2, 5)
@@ -245,6 +302,13 @@ def plan_history(i):
     def install(slot, want_small):
         pool = W["small"] if want_small else (W["loadable"] if rng.chance(3, 4) else list(range(len(bases))))
         bi = rng.choice(pool)
+        # collision bias: state keyed by version / magic / path is exposed by a *sibling* of a file already
+        # on the disk - same version but other variant (PyPy vs CPython), or same magic but other content
+        if slots and rng.chance(1, 3):
+            other = slots[rng.choice(sorted(slots))]
+            sib = _siblings(other["bi"], want_small)
+            if sib:
+                bi = rng.choice(sib)
         base = bases[bi]
         img = base.data
         faulted = False
@@ -335,6 +399,25 @@ def plan_history(i):
 
 
 _SETS = {}
+
+
+def _siblings(bi, want_small):
+    """loadable files with the same (major, minor) version as file bi, PyPy variants included"""
+    if "by_version" not in _SETS:
+        byv = {}
+        for k in W["loadable"]:
+            byv.setdefault(tuple(W["info"][k]["version"]), []).append(k)
+        _SETS["by_version"] = byv
+    info = W["info"][bi]
+    if not info.get("ok"):
+        return []
+    sib = [k for k in _SETS["by_version"].get(tuple(info["version"]), []) if k != bi]
+    if want_small:
+        small = _small_set()
+        sib = [k for k in sib if k in small]
+    # variants first: a file whose PyPy flag differs is the rarest sibling, so give it half of the draws
+    diff = [k for k in sib if W["info"][k].get("is_pypy") != info.get("is_pypy")]
+    return diff * 1 + sib if not diff else diff * max(1, len(sib) // max(1, len(diff))) + sib
 
 
 def _small_set():
@@ -588,14 +671,16 @@ def _history_child(emit, ops, images, detail, tables_every_op, tables_at_end=Tru
                     f.write(images[sha])
                 # the simulated disk owns file metadata too: disassemble_file's source fallback reports
                 # st_mtime, which must not depend on when the simulator happened to write the slot
-                os.utime(name, (SIM_MTIME, SIM_MTIME))
+                # (a function of the content, so that a re-installed slot also gets a new mtime)
+                mt = sim_mtime(sha)
+                os.utime(name, (mt, mt))
                 continue
             rec = exec_op(op, detail)
             rec["j"] = j
             if tables_every_op:
                 rec["tables"] = _table_mismatch()
             emit(rec)
-        emit({"end": True, "tables": _table_mismatch() if tables_at_end else []})
+        emit({"end": True, "tables": _table_mismatch() if tables_at_end else {"v": [], "o": []}})
     finally:
         os.chdir(W["rundir"])
         try:
@@ -608,17 +693,10 @@ def _history_child(emit, ops, images, detail, tables_every_op, tables_at_end=Tru
 
 
 def _table_mismatch():
-    """modules whose tables differ from the fresh-process snapshot -> list of [module, attrs]"""
-    cur = canon.process_tables()
-    snap = W["snapshot"]
-    bad = []
-    for name in sorted(cur):
-        want = snap.get(name)
-        if want is None:
-            continue  # module unknown to the snapshot (cannot happen: snapshot imports everything)
-        if cur[name] != want:
-            bad.append(name)
-    return bad
+    """tables (module-level data that is non-empty in a fresh process) that differ from the fresh-process
+    snapshot -> {"v": ["module:attr", ...], "o": [observations: caches/accumulators that changed]}"""
+    viol, obs = canon.compare_tables(W["snapshot"], canon.process_tables())
+    return {"v": viol[:12], "o": obs[:12]}
 
 
 def run_ops(ops, images, detail=False, tables_every_op=False, timeout=None, tables_at_end=True):
@@ -658,10 +736,9 @@ class RefMemo:
         ops_recs = [x for x in recs if "j" in x]
         end = [x for x in recs if x.get("end")]
         if r.status != "ok" or not ops_recs:
-            out = {"d": "REF-FAILED:%s" % r.status, "c": {}, "x": "ref-" + r.status, "tables": []}
+            out = {"d": "REF-FAILED:%s" % r.status, "c": {}, "x": "ref-" + r.status}
         else:
             out = ops_recs[0]
-            out["tables"] = end[0]["tables"] if end else []
         if not detail:
             self.memo[k] = out
         return out
@@ -694,10 +771,14 @@ def check_history(h, memo, detail=False):
             viols.append({"class": "divergence", "op": op[0], "component": "+".join(comps) or "?", "j": x["j"],
                           "history_exc": x.get("x"), "fresh_exc": ref.get("x"),
                           "fmt": op[4] if op[0] in ("dis", "cli") else None})
-        if ref.get("tables"):
-            viols.append({"class": "tables", "op": op[0], "modules": ref["tables"], "j": x["j"], "single_call": True})
-    if end and end[0]["tables"]:
-        viols.append({"class": "tables", "op": "?", "modules": end[0]["tables"], "j": -1, "single_call": False})
+    obs = []
+    if end and end[0]["tables"]["v"]:
+        viols.append({"class": "tables", "op": "?", "modules": end[0]["tables"]["v"], "j": -1})
+    if end:
+        obs = end[0]["tables"]["o"]
+    h_obs = getattr(h, "observations", None)
+    if h_obs is not None:
+        h_obs.extend(obs)
     return op_recs, viols
 
 
@@ -718,7 +799,7 @@ def new_agg():
     return {"histories": 0, "ops": 0, "compared": 0, "fault_ops": 0, "fault_ops_fired": 0, "op_kinds": {},
             "distinct": set(), "pairs": set(), "violations": [], "probes": {}, "ref_hits": 0, "ref_misses": 0,
             "faults_fired": {}, "exc_results": 0, "samples": [], "wall": 0.0, "faulted_installs": 0,
-            "digest": 0, "digest_verdict": 0}
+            "digest": 0, "digest_verdict": 0, "state_observations": {}, "chain_pairs": 0}
 
 
 def _probe(agg, name, n=1):
@@ -783,12 +864,18 @@ def account(agg, h, recs, viols):
         if rec is not None:
             agg["digest"] ^= int(canon.digest([h.index, j, rec["d"]])[:12], 16)
             agg["digest_verdict"] ^= int(canon.digest([h.index, j, op, rec.get("x")])[:12], 16)
-    if len([o for o in h.ops if o[0] != "install"]) >= 2 and len(kinds - {"install"}) >= 2:
+    nops = len([o for o in h.ops if o[0] != "install"])
+    if nops >= 2 and (len(kinds - {"install"}) >= 2 or nops >= 40):
         agg["distinct"].add(h.key())
+    if nops >= 40:
+        _probe(agg, "long chain (>= 40 operations in one process)")
+        agg["chain_pairs"] += nops * (nops - 1) // 2
     if any(o[0] == "std" for o in h.ops):
         _probe(agg, "std api built in history")
     if any(o[0] == "import" for o in h.ops):
         _probe(agg, "late import in history")
+    for o in getattr(h, "observations", None) or []:
+        agg["state_observations"][o] = agg["state_observations"].get(o, 0) + 1
     for v in viols:
         if len(agg["violations"]) < 100:
             agg["violations"].append({"i": h.index, "v": v})
@@ -807,12 +894,12 @@ def merge(aggs):
     tot = new_agg()
     for a in aggs:
         for k in ("histories", "ops", "compared", "fault_ops", "fault_ops_fired", "ref_hits", "ref_misses",
-                  "exc_results"):
+                  "exc_results", "chain_pairs"):
             tot[k] += a[k]
         tot["digest"] ^= a["digest"]
         tot["digest_verdict"] ^= a["digest_verdict"]
         tot["wall"] = max(tot["wall"], a["wall"])
-        for dk in ("op_kinds", "probes", "faults_fired"):
+        for dk in ("op_kinds", "probes", "faults_fired", "state_observations"):
             for k, v in a[dk].items():
                 tot[dk][k] = tot[dk].get(k, 0) + v
         tot["distinct"].update(a["distinct"])
@@ -857,7 +944,7 @@ def _prune(ops):
     return keep
 
 
-def minimise_history(h, want_key, memo):
+def minimise_history(h, want_key, memo, first_j=None):
     from sim import minimise
 
     def fails(ops):
@@ -866,16 +953,34 @@ def minimise_history(h, want_key, memo):
             return False
         hh = History()
         hh.index, hh.seed, hh.ops, hh.images, hh.faulty = h.index, h.seed, ops, h.images, h.faulty
+        hh.observations = []
         _, viols = check_history(hh, memo)
         return any(sig_key(signature(v)) == want_key for v in viols)
 
-    budget = minimise.Budget(120)
+    budget = minimise.Budget(60 if len(h.ops) > 60 else 120)
     ops = list(h.ops)
     if not fails(ops):
         return ops, {"strategy": ["not reproduced during minimisation"], "tests": 1}
+    strategy = []
+    # nothing after the first diverging operation can matter
+    if first_j is not None and 0 <= first_j < len(ops) - 1 and fails(ops[:first_j + 1]):
+        strategy.append("truncated after the diverging operation: %d -> %d" % (len(ops), first_j + 1))
+        ops = ops[:first_j + 1]
+    # the victim is the last op; find a short polluting prefix by halving before the general ddmin
+    while len(ops) > 16 and budget.left > 0:
+        half = ops[len(ops) // 2:]
+        if budget.take() and fails(half):
+            ops = half
+            continue
+        half = ops[:len(ops) // 2 - 1] + ops[-2:]
+        if budget.take() and fails(half):
+            ops = half
+            continue
+        break
     ops = minimise.ddmin_list(ops, fails, budget)
     ops = _prune(ops)
-    return ops, {"strategy": ["ddmin over operations: %d -> %d" % (len(h.ops), len(ops))], "tests": budget.tests}
+    return ops, {"strategy": strategy + ["ddmin over operations: %d -> %d" % (len(h.ops), len(ops))],
+                 "tests": budget.tests}
 
 
 def _detail_diff(h_ops, images, memo, sig):
@@ -906,8 +1011,8 @@ def _detail_diff(h_ops, images, memo, sig):
 # ------------------------------------------------------------------------------ driver
 
 TIERS = {
-    "quick": {"histories": 2000, "produce": (2, 2), "wall_cap": 110, "shard": 10},
-    "thorough": {"histories": 40000, "produce": (10, 12), "wall_cap": 3000, "shard": 20},
+    "quick": {"histories": 1300, "chains": 48, "produce": (2, 2), "wall_cap": 110, "shard": 10},
+    "thorough": {"histories": 40000, "chains": 1600, "produce": (10, 12), "wall_cap": 3000, "shard": 20},
 }
 
 
@@ -964,10 +1069,14 @@ def main(opts):
     core.log("[C18] corpus: %d files (%d loadable, %d small enough for listings), %d versions, prepared in %.1fs" % (
         len(W["bases"]), len(W["loadable"]), len(W["small"]), len(W["versions"]), time.time() - t0))
     # zygote sanity: the zygote's tables equal the all-imported snapshot on shared modules
-    zbad = [k for k, v in W["zygote_tables"].items() if W["snapshot"].get(k) != v]
+    zbad, _zobs = canon.compare_tables(W["snapshot"], W["zygote_tables"])
     n = cfg["histories"]
     sh = cfg["shard"]
-    shards = [(lo, min(n, lo + sh)) for lo in range(0, n, sh)]
+    W["chain_from"] = n
+    # chains first (they are the long poles), 3 per shard so that a worker's reference memo is reused
+    nch = cfg.get("chains", 0) if not opts.get("runs") else max(0, int(opts["runs"]) // 40)
+    shards = [(lo, min(n + nch, lo + 3)) for lo in range(n, n + nch, 3)]
+    shards += [(lo, min(n, lo + sh)) for lo in range(0, n, sh)]
     aggs = []
     wave = workers * 2
     for w0 in range(0, len(shards), wave):
@@ -1017,7 +1126,7 @@ def main(opts):
             core.write_json_atomic(path, {"property": PROP, "signature": sig, "violation": x["v"]})
         else:
             h = plan_history(x["i"])
-            ops, info = minimise_history(h, k, memo)
+            ops, info = minimise_history(h, k, memo, x["v"].get("j"))
             diff = _detail_diff(ops, h.images, memo, sig) if sig["class"] == "divergence" else {}
             used = set(o[2] for o in ops if o[0] == "install")
             path = _replay_path(master, "%s-%d" % (core.sha256_hex(k.encode())[:8], len(replays)))
@@ -1042,7 +1151,7 @@ def main(opts):
                 "`import xdis` process over a simulated disk of 2-4 slots, every compared operation checked against "
                 "the same call made first in its own fresh fork, tables checked against the fresh-process snapshot "
                 "at the end; distinct_nontrivial counts distinct histories (hash of the op list) with >= 2 non-install "
-                "ops of >= 2 different kinds",
+                "ops of >= 2 different kinds, or long chains (>= 40 ops)",
         "samples": tot["samples"][:3] or [{"note": "none"}],
         "operations": tot["ops"],
         "compared_operations": tot["compared"],
@@ -1053,6 +1162,8 @@ def main(opts):
         "op_kinds": tot["op_kinds"],
         "distinct_ordered_pairs_of_op_kinds": len(tot["pairs"]),
         "reach_probes": tot["probes"],
+        "non_table_state_changes_observed": tot["state_observations"],
+        "ordered_file_pairs_covered_by_long_chains": tot["chain_pairs"],
         "reference_computations": tot["ref_misses"],
         "reference_memo_hits": tot["ref_hits"],
         "seeds_per_hour": int(tot["histories"] / max(1e-6, t_runs) * 3600),
@@ -1098,6 +1209,7 @@ def replay(path):
     prepare(r.get("master_seed", 0), "quick", produced)
     h = History()
     h.index, h.seed, h.faulty = r.get("history_index", 0), r.get("history_seed", 0), True
+    h.observations = []
     h.ops = r["ops"]
     h.images = dict((k, core.unb64(v)) for k, v in r["images_b64"].items())
     memo = RefMemo()
